@@ -48,7 +48,8 @@ def main():
     core.log(f'[{pid}] build {time.time()-tb:.1f}s (incl. waiting for the build lock)')
     vo = os.path.join(core.COQ, 'Properties', f'{pid}.vo')
     src = os.path.join(core.COQ, 'Properties', f'{pid}.v')
-    proofs_ok = b.ok or (os.path.exists(vo) and os.path.exists(src) and not _depends_on_failed(pid, b))
+    proofs_ok = b.ok or (os.path.exists(vo) and os.path.exists(src)
+                         and not _depends_on_failed(pid, b, list(getattr(mod, 'EXTRA_TARGETS', []))))
     theorems = []
     if proofs_ok:
         tb = time.time()
@@ -77,7 +78,9 @@ def main():
         violations.append(core.Violation('harness-error', f'correspondence run raised {e!r}',
                                          {'traceback': traceback.format_exc(), 'proof_broken': broken},
                                          signature='harness-error', found_input=False))
-    if broken is not None and not any(v.found_input for v in violations):
+    # a failing input that is a LISTED known finding does not explain a broken obligation (bld-sub: it used to mask it)
+    known_sigs = {r['signature'] for r in core.load_known(pid)}
+    if broken is not None and not any(v.found_input and v.signature not in known_sigs for v in violations):
         violations.append(core.Violation(
             'proof-broken',
             f'theorem/obligation no longer checks: {broken["failed_file"]}; search found no failing input',
@@ -141,8 +144,9 @@ def _closure_sources(pid):
     return out or None
 
 
-def _depends_on_failed(pid, b):
-    """After `make -k`: is Properties/<pid>.vo (or anything it depends on) missing or stale?"""
+def _depends_on_failed(pid, b, extra=()):
+    """After `make -k`: is Properties/<pid>.vo, one of the check's extra obligations (EXTRA_TARGETS, e.g. the registry
+    tie) or anything they depend on missing or stale?"""
     dep = os.path.join(core.COQ, '.Makefile.d')
     try:
         with open(dep) as f:
@@ -157,7 +161,7 @@ def _depends_on_failed(pid, b):
         for t in lhs.split():
             if t.endswith('.vo'):
                 deps.setdefault(t, set()).update(x for x in rhs.split() if x.endswith('.vo') or x.endswith('.v'))
-    seen, todo = set(), [f'Properties/{pid}.vo']
+    seen, todo = set(), [f'Properties/{pid}.vo'] + list(extra)
     while todo:
         t = todo.pop()
         if t in seen:
@@ -173,6 +177,12 @@ def _depends_on_failed(pid, b):
             if not os.path.exists(vo) or os.path.getmtime(vo) < os.path.getmtime(v):
                 b.failed = b.failed or t[:-1]
                 return True
+            # stale with respect to what it was compiled against (make -k left the old .vo in place)
+            for d in deps.get(t, ()):
+                dp = os.path.join(core.COQ, d)
+                if not d.startswith('/') and os.path.exists(dp) and os.path.getmtime(dp) > os.path.getmtime(vo) + 1e-6:
+                    b.failed = b.failed or t[:-1]
+                    return True
     return False
 
 
